@@ -9,9 +9,18 @@ correspondence: every call is replayed on the extracted model (ocaml/multi_drive
                 the hook `verif_multi`; compared: chunk ranges, per-job buffers, per-job flags before
                 and after the prefix is installed, prefix truncation, index mode, ranges stored into
                 the shared hasher, which chunks reach the concatenator, result, error kind, hand-back
-search (spec) : on the real code only: no panic, no join that cannot return, success => the bytes
-                decode (brotli-decompressor) to exactly the input, buffer >= advertised maximum and
-                quality >= 2 => success, success or error => the input is handed back
+search (spec) : on the real code only: no panic, no join that cannot return (a worker that died with
+                its job; a call that has not returned when the harness's watchdog gives up - the request
+                keeps that verdict together with the earlier calls on the same reused pool), success => the
+                bytes decode (brotli-decompressor) to exactly the input, buffer >= advertised maximum and
+                quality >= 2 => success, success or error => the input is handed back.  A harness process
+                that dies leaves a failing request, never an agreement.
+                Input families: lengths around the thread count / lookahead, prefixes longer than the
+                window, incompressible data at quality 0/1, general, short buffers, failing spawners, the
+                slice entry point, favor_cpu_efficiency without a size hint on inputs around every 2^k that
+                ChooseHasher compares size_hint with, and inputs laid out along the job ranges (`lay.T.letters`): jobs whose
+                first meta-block is stored uncompressed (noise of at least the maximal meta-block length)
+                followed by copies at the distances 1..16, after text-like or long-period jobs.
 """
 import json, os, time
 import vlib
@@ -56,7 +65,54 @@ OTHER_SPAWNERS = ["thr", "pool", "poolr:1", "poolr:2", "poolr:4", "poolr:15"]
 
 def heavy(c):
     """memory/time weight: quality 10/11 builds a binary tree of 2^lgwin nodes per job"""
+    if c.kind.startswith("lay.") and c.n <= 6000000:
+        return c.q >= 10 and c.w >= 20
     return (c.q >= 10 and (c.w >= 20 or c.n > 30000)) or c.n > 400000
+
+
+def lgblock_of(q, w, lb=0):
+    """ComputeLgBlock of encode.rs (only used to size the inputs of family I)"""
+    if q < 2:
+        return w
+    if q < 4:
+        return 14
+    if lb:
+        return min(24, max(16, lb))
+    return min(18, w) if (q >= 9 and w > 16) else 16
+
+
+def max_metablock(q, w, lb=0):
+    """MaxMetablockSize: input keeps being merged into one meta-block up to this length while it yields no commands"""
+    return 1 << min(24, 1 + max(w, lgblock_of(q, w, lb)))
+
+
+def gen_stored_head(rng, n_cases, thorough):
+    """family I: inputs laid out along the job ranges.  Some job > 0 starts with noise that fills at
+    least one maximal meta-block (stored uncompressed: the encoder falls back to the distance ring it
+    saved before) and goes on with runs of period 1..16 (copies at the distances a fresh ring holds,
+    4 11 15 16, and their neighbours); the job before is text, a long period, a mix or another such job"""
+    out = []
+    for k in range(n_cases):
+        q = rng.choice([2, 3, 4, 5, 5, 6, 7, 8, 9, 9, 10, 11])
+        big = rng.random() < (0.25 if thorough else 0.12)
+        w = rng.choice([17, 17, 18, 18, 19, 20] if big else [10, 11, 12, 13, 14, 15, 16, 16, 16])
+        if q >= 10:
+            w = min(w, 18)
+        lb = rng.choice([0, 0, 0, 16, 17]) if q >= 4 and not big else 0
+        t = rng.choice([2, 2, 3, 3, 4, 5, 6, 8]) if not big else rng.choice([2, 2, 3])
+        mm = max_metablock(q, w, lb)
+        chunk = int(mm * rng.uniform(2.0, 3.2)) + rng.randrange(0, 97)
+        if q >= 10 and chunk * t > 1500000:
+            t = max(2, 1500000 // chunk)
+        first = rng.choice("ttttPmsn")
+        pat = first + "".join(rng.choice("nnnnnntPp") for _ in range(rng.randrange(1, 4)))
+        if "n" not in pat[1:]:
+            pat = pat[0] + "n" + pat[2:]
+        lay_t = t if rng.random() < 0.9 else rng.choice([2, 3, 4])    # mostly aligned with the job ranges
+        f = rng.choice([0, 0, 0, 8, 8, 1, 2, 4, 3, 12, 15])
+        sp = rng.choice(["inl", "inl", "thr", "pool", "poolr:3", "poolr:15"])
+        out.append(Case(sp, q, w, f, t, "lay.%d.%s" % (lay_t, pat), chunk * t, rng.randrange(1, 100000), "bound", 0, "dev", lb))
+    return out
 
 
 def rand_flags(rng):
@@ -145,6 +201,21 @@ def gen_cases(run, thorough):
     for _ in range(40 * scale):
         cases.append(Case("slice", rng.randrange(0, 10), rng.choice([10, 16, 22]), rand_flags(rng) & ~16, rng.randrange(1, 17), rng.choice(KINDS), rng.choice([0, 7, 3000, 40000]),
                           rng.randrange(1, 1000)))
+    # J: no size hint and the shared index (favor_cpu_efficiency): inputs on both sides of every 2^k that ChooseHasher
+    # compares size_hint with, in windows that hold job 1's prefix (only then is the shared index adopted)
+    for k in mc.size_hint_cuts():
+        if k > 22 or (k > 20 and not thorough):
+            continue
+        cut = 1 << k
+        for q in [4, 5, 6, 7, 9] * (3 if thorough else 1):
+            t = rng.choice([2, 2, 3, 4])
+            n = rng.choice([cut - 1, cut, cut + 1, cut + 1, cut + rng.randrange(2, 70000), cut + rng.randrange(2, 70000)])
+            wmin = max(10, (n // t + 16).bit_length())
+            w = rng.choice(list(range(wmin, 25))) if wmin <= 24 else 24
+            for sp in ("inl", other(rng)):
+                cases.append(Case(sp, q, w, rng.choice([8, 8, 9, 12]), t, rng.choice(["text", "mix", "skew"]), n, rng.randrange(1, 100000)))
+    # I: a job > 0 whose first meta-block is stored uncompressed, then copies at distances 1..16
+    cases.extend(gen_stored_head(rng, 420 if thorough else 110, thorough))
     return cases
 
 
@@ -236,6 +307,10 @@ def check(run):
     nontriv = set()
     total, ntraces, nviol, ndis = 0, 0, 0, 0
     samples = []
+    spec_reports, corr_reports = [], []      # reported at the end, concrete failing inputs first
+    budget = mc.HangBudget()
+    notrun, max_ms = 0, 0
+    fam_i = {"cases": 0, "quality": {}, "lgwin": {}, "decoded_ok": 0}
     for prof in profiles:
         okh, logh, impl = vlib.harness_build("multi", prof)
         if not okh:
@@ -246,20 +321,36 @@ def check(run):
         light = [c for c in cases if not heavy(c)]
         hv = [c for c in cases if heavy(c)]
         t0 = time.time()
-        answers = mc.run_impl(impl, light) + mc.run_impl(impl, hv, shards=4)
+        # the light cases dealt round 16 processes, the heavy ones round 4 more, all at once
+        bins = [[light[i] for i in range(k, len(light), vlib.NCPU)] for k in range(vlib.NCPU)] + [[hv[i] for i in range(k, len(hv), 4)] for k in range(4)]
+        got = mc.run_bins(impl, bins, budget)
+        answers = [got[id(c)] for c in light + hv]
         cases = light + hv
         t1 = time.time()
         run.note("profile %s: %d calls on the implementation in %.1fs (%d heavy)" % (prof, len(cases), t1 - t0, len(hv)))
         # ---- search: the property on the real code
         for c, a in zip(cases, answers):
+            if a.notrun:
+                notrun += 1      # never an agreement: reported below
+                continue
             total += 1
+            max_ms = max(max_ms, a.ms)
+            if c.kind.startswith("lay."):
+                fam_i["cases"] += 1
+                fam_i["quality"][str(c.q)] = fam_i["quality"].get(str(c.q), 0) + 1
+                fam_i["lgwin"][str(c.w)] = fam_i["lgwin"].get(str(c.w), 0) + 1
+                fam_i["decoded_ok"] += 1 if a.dec == "ok" else 0
             bad = mc.c02_spec(c, a)
             if bad:
                 nviol += 1
-                if nviol <= 8:
-                    cd = c.case()
-                    cd.update({"failed": bad, "result": a.result_str()})
-                    run.report("spec-violation", cd, {"impl": a.head[:400], "model": "(see --replay)", "spec": "FAIL: " + "; ".join(bad)}, what="; ".join(bad)[:400])
+                # wrong bytes first, then calls that do not come back, then the rest
+                rank = 0 if (a.kind == "OK" and a.dec != "ok") or a.kind == "OVERRUN" else 1 if a.failed_to_return() else 2
+                cd = c.case()
+                cd.update({"failed": bad, "result": a.result_str()})
+                if a.history:
+                    cd["history"] = a.history
+                    cd["history_note"] = "requests that ran before on the same reused pool, in the same process, in this order"
+                spec_reports.append((rank, len(spec_reports), cd, {"impl": a.head[:600], "model": "(see --replay)", "spec": "FAIL: " + "; ".join(bad)}, "; ".join(bad)[:400]))
             hist["quality"][str(c.q)] = hist["quality"].get(str(c.q), 0) + 1
             hist["lgwin"][str(c.w)] = hist["lgwin"].get(str(c.w), 0) + 1
             hist["threads"][str(c.t)] = hist["threads"].get(str(c.t), 0) + 1
@@ -274,7 +365,7 @@ def check(run):
             reached_classes(c, a, reached)
         # ---- correspondence: the same calls on the model
         if os.path.exists(model):
-            sub = [(c, a) for c, a in zip(cases, answers) if not c.sp.startswith("slice") and a.kind != "TOOL" and c.n <= 400000]
+            sub = [(c, a) for c, a in zip(cases, answers) if not c.sp.startswith("slice") and a.kind not in ("TOOL", "NORETURN", "?") and c.n <= 400000]
             mlines, mans = mc.run_model(model, [x[0] for x in sub], [x[1] for x in sub], run.rng)
             run.note("profile %s: %d calls replayed on the model in %.1fs" % (prof, len(sub), time.time() - t1))
             for (c, a), ml, ma in zip(sub, mlines, mans):
@@ -288,10 +379,24 @@ def check(run):
                         # does the implementation behave like the code as found?
                         old = vlib.run_lines(model, [ml.replace("ver=cur", "ver=asf")], shards=1)[0]
                         hint = " (the model of the code AS FOUND agrees: a fix looks reverted)" if not mc.compare(c, a, old) else ""
-                        run.report("correspondence", cd, {"impl": a.text[:1500], "model": ma[:1500], "spec": "; ".join(mc.c02_spec(c, a)) or "OK"},
-                                   broken="correspondence Multi.v vs threading.rs/encode.rs: " + "; ".join(diffs)[:500] + hint, found_input=False)
+                        corr_reports.append((cd, {"impl": a.text[:1500], "model": ma[:1500], "spec": "; ".join(mc.c02_spec(c, a)) or "OK"},
+                                             "correspondence Multi.v vs threading.rs/encode.rs: " + "; ".join(diffs)[:500] + hint))
         if not samples:
             samples = [cases[0].line(False), cases[len(cases) // 3].line(False), cases[len(cases) // 2].line(False), cases[-1].line(False)]
+    # ---- verdicts: failures of the property on a concrete input first, then differences from the model only
+    for rank, _, cd, obs, what in sorted(spec_reports, key=lambda r: (r[0], r[1]))[:8]:
+        run.report("spec-violation", cd, obs, what=what)
+    for cd, obs, brk in corr_reports:
+        run.report("correspondence", cd, obs, broken=brk, found_input=False)
+    if notrun:
+        run.report("proof-obligation", {"stage": "search", "requests_not_run": notrun}, {"hung_or_dead_processes": budget.used},
+                   broken="%d requests were not run because %d harness processes had hung or died (reported above, up to the report cap); they are not counted as checked" % (notrun, budget.used),
+                   found_input=False)
+    run.cov["requests_not_run"] = notrun
+    run.cov["harness_processes_hung_or_dead"] = budget.used
+    run.cov["max_call_ms"] = max_ms
+    run.cov["watchdog"] = "a call that has not returned after 60 s + 1 s per 50 kB (more at quality 10/11) is answered NORETURN and reported"
+    run.cov["family_I_stored_first_metablock_then_short_copies"] = fam_i
     run.cov["evaluations"] = total + ntraces + nrange
     run.cov["distinct_nontrivial"] = len(nontriv)
     run.cov["traces_validated_against_impl"] = ntraces
@@ -318,7 +423,16 @@ def replay(path):
     _, _, impl = vlib.harness_build("multi", prof)
     _, _, model = mc.build_model()
     c = mc.case_from_line(line, prof)
-    a = mc.run_impl(impl, [c], shards=1)[0]
+    hist = case.get("history") or []
+    if hist:
+        print("%d earlier requests on the same pool, in the same process:" % len(hist))
+        for h in hist:
+            print("   " + h)
+        a = mc.run_sequence(impl, hist + [c.line()])[-1]
+        alone = mc.run_impl(impl, [c], shards=1)[0]
+        print("the request alone, in a fresh process: %s" % alone.head[:300])
+    else:
+        a = mc.run_impl(impl, [c], shards=1)[0]
     print("request: %s   (profile %s)" % (c.line(), prof))
     print("impl:  %s" % a.text[:4000])
     import random
